@@ -33,7 +33,7 @@
 
 using namespace vp;
 
-const TargetInfo vp_info = {"c14_threads", 32, 1800};
+const TargetInfo vp_info = {"c14_threads", 160, 2000};
 
 extern "C" int opus_verif_arch_cap;
 
@@ -70,6 +70,7 @@ struct Workload {
   bool inplace = false;        // objects initialised in caller memory instead of *_create
   cu::EncCfg cfg;              // encoder-side configuration (Fs, channels, application, settings)
   int decFs = 48000, decCh = 1;
+  bool fec_profile = false;    // decoder workloads: encoder set up so that packets carry LBRR, long packets likely
   // multistream
   int ms_family = -1;          // -1: explicit layout, else surround mapping family
   int channels = 1, streams = 1, coupled = 0;
@@ -136,7 +137,7 @@ inline void busy(int iters) { for (int i = 0; i < iters; i++) __asm__ __volatile
 struct Ctx {
   bool threaded = false;
   uint64_t h = 1469598103934665603ull;
-  int calls = 0, maxconc = 0, coded_ok = 0, transitions = 0, last_mode = -1, plc = 0, fec = 0, created = 0;
+  int calls = 0, maxconc = 0, coded_ok = 0, transitions = 0, last_mode = -1, plc = 0, fec = 0, fec_lbrr = 0, fec_lbrr_multi = 0, created = 0;
   int harness_err = 0;            // object creation failed etc. (reported, never expected)
   std::vector<uint64_t> trail;    // digest after each operation
   inline void enter() { int v = g_inside.fetch_add(1, std::memory_order_relaxed) + 1; if (v > maxconc) maxconc = v; calls++; }
@@ -330,6 +331,8 @@ void run_dec(const Workload& w, Ctx& X) {
         enc_frame(X, w, enc, pos, fs, op.b, lost.p, op.c);
         int len = enc_frame(X, w, enc, pos, fs, op.b, pkt.p, op.c);
         if (len > 0) {
+          int lb = LIB(opus_packet_has_lbrr(pkt.p, len)); X.puti(lb);
+          if (lb > 0) { X.fec_lbrr++; if (op.a >= 4) X.fec_lbrr_multi++; }
           dec_call(X, dec, pkt.p, len, ds, w.decCh, op.d, 1);
           dec_call(X, dec, pkt.p, len, ds, w.decCh, op.d, 0);
           X.fec++;
@@ -702,6 +705,15 @@ void gen_workload(Choice& c, Workload& w, int budget) {
   memset(w.mapping, 0, sizeof w.mapping);
   switch (w.kind) {
     case K_DEC:
+      if (c.chance(70)) {
+        w.fec_profile = true;
+        cu::EncCfg& e = w.cfg;
+        e.fec = 1 + c.irange(0, 1); e.loss = c.irange(5, 40); e.bitrate = c.irange(16000, 48000) * e.ch; e.dtx = 0; e.vbr = 1;
+        e.force_mode = c.chance(200) ? cu::MODE_SILK : OPUS_AUTO; e.app = OPUS_APPLICATION_VOIP; e.bandwidth = OPUS_AUTO;
+        e.max_bandwidth = cu::BANDWIDTHS[c.irange(0, 2)]; e.force_channels = OPUS_AUTO; e.signal = OPUS_SIGNAL_VOICE;
+        if (e.Fs < 16000) e.Fs = 16000;
+        if (w.sig_family == 2) w.sig_family = 3;
+      }
       if (c.chance(140)) { w.decFs = w.cfg.Fs; w.decCh = w.cfg.ch; } else { w.decFs = cu::RATES[4 - c.irange(0, 4)]; w.decCh = 1 + c.irange(0, 1); }
       break;
     case K_MS: {
@@ -739,14 +751,15 @@ void gen_workload(Choice& c, Workload& w, int budget) {
     // per-kind operation mix; small values = plain coding
     switch (w.kind) {
       case K_ENC: op.type = t < 120 ? OP_CODE : t < 200 ? OP_CTL : t < 215 ? OP_RESET : t < 235 ? OP_RECREATE : OP_GET; break;
-      case K_DEC: op.type = t < 90 ? OP_CODE : t < 120 ? OP_LOSS : t < 145 ? OP_FEC : t < 195 ? OP_CTL : t < 215 ? OP_DCTL : t < 228 ? OP_RESET : t < 245 ? OP_RECREATE : OP_GET; break;
+      case K_DEC: if (w.fec_profile) { op.type = t < 100 ? OP_CODE : t < 200 ? OP_FEC : t < 225 ? OP_LOSS : t < 240 ? OP_CTL : OP_DCTL; break; }
+        op.type = t < 90 ? OP_CODE : t < 120 ? OP_LOSS : t < 145 ? OP_FEC : t < 195 ? OP_CTL : t < 215 ? OP_DCTL : t < 228 ? OP_RESET : t < 245 ? OP_RECREATE : OP_GET; break;
       case K_MS: op.type = t < 130 ? OP_CODE : t < 160 ? OP_LOSS : t < 205 ? OP_CTL : t < 220 ? OP_RESET : t < 240 ? OP_RECREATE : OP_GET; break;
       case K_PROJ: op.type = t < 150 ? OP_CODE : t < 180 ? OP_LOSS : t < 215 ? OP_CTL : t < 230 ? OP_RESET : t < 245 ? OP_RECREATE : OP_GET; break;
       default: op.type = t < 100 ? OP_CODE : t < 135 ? OP_OUT : t < 165 ? OP_OUT_RANGE : t < 185 ? OP_PAD : t < 205 ? OP_GET : t < 220 ? OP_SOFTCLIP : t < 235 ? OP_RESET : t < 245 ? OP_RECREATE : OP_CTL; break;
     }
     switch (op.type) {
       case OP_CODE: case OP_LOSS: case OP_FEC: {
-        int d = w.kind == K_REPACK ? w.rp_dur : (w.kind == K_MS || w.kind == K_PROJ) ? gen_dur(c, 0, 3) : gen_dur(c, 0, 5);
+        int d = w.kind == K_REPACK ? w.rp_dur : (w.kind == K_MS || w.kind == K_PROJ) ? gen_dur(c, 0, 3) : w.fec_profile ? c.pick((const int[]){3, 4, 5, 3}) : gen_dur(c, 0, 5);
         const int weight = single ? 1 : (w.channels + 1) / 2;      // streams coded per frame
         int cost = cu::DUR400[d] * (op.type == OP_FEC ? 2 : 1) * weight;
         if (cost > budget) { if (op.type == OP_FEC) op.type = OP_CODE; if (w.kind != K_REPACK) d = 3; cost = cu::DUR400[d] * weight; }
@@ -783,7 +796,7 @@ std::string describe(const Workload& w) {
   char b[256];
   std::string s = KIND_NAME[w.kind];
   snprintf(b, sizeof b, " %s Fs=%d ch=%d", w.inplace ? "init-in-caller-memory" : "create", w.cfg.Fs, w.channels); s += b;
-  if (w.kind == K_DEC) { snprintf(b, sizeof b, " dec=%d/%d", w.decFs, w.decCh); s += b; }
+  if (w.kind == K_DEC) { snprintf(b, sizeof b, " dec=%d/%d%s", w.decFs, w.decCh, w.fec_profile ? " fec-profile" : ""); s += b; }
   if (w.kind == K_MS) { snprintf(b, sizeof b, " family=%d streams=%d coupled=%d", w.ms_family, w.streams, w.coupled); s += b; }
   if (w.kind == K_PROJ) { snprintf(b, sizeof b, " order=%d+%d", w.order, w.nondiegetic); s += b; }
   snprintf(b, sizeof b, " app=%d br=%d cx=%d fmode=%d fec=%d dtx=%d sig=%d start_spin=%d ops=[", w.cfg.app, w.cfg.bitrate, w.cfg.complexity, w.cfg.force_mode, w.cfg.fec, w.cfg.dtx, w.sig_family, w.start_spin); s += b;
@@ -806,7 +819,7 @@ int vp_case(Choice& c, Report& rep) {
   const int T = 2 + c.irange(0, 10);
   int cap;
   { int b = c.byte(); cap = b < 100 ? 255 : b < 175 ? 0 : 1 + (b % 4); }
-  const bool staggered = c.chance(90);     // otherwise every thread makes its first library call right after the rendezvous
+  const bool staggered = !c.chance(166);   // otherwise every thread makes its first library call right after the rendezvous
   std::vector<Workload> wl((size_t)T);
   // audio budget per thread in 2.5 ms units weighted by the number of streams: about 1.2 s of single-stream
   // audio per case in total, at least four 20 ms frames per thread (keeps the TSan cases short)
@@ -855,13 +868,15 @@ int vp_case(Choice& c, Report& rep) {
   opus_verif_arch_cap = 255;
 
   // ---- verdict
-  int maxconc = 0, calls = 0, coded = 0, trans_threads = 0, plc = 0, fec = 0, herr = 0, created = 0;
+  int maxconc = 0, calls = 0, coded = 0, trans_threads = 0, plc = 0, fec = 0, herr = 0, created = 0, lbrr_threads = 0, lbrr_multi_threads = 0;
   for (int t = 0; t < T; t++) {
     const Ctx& a = args[t].ctx;
     if (a.maxconc > maxconc) maxconc = a.maxconc;
     calls += a.calls + ser[t].calls; coded += ser[t].coded_ok; plc += ser[t].plc; fec += ser[t].fec; herr += ser[t].harness_err + a.harness_err;
     created += ser[t].created;
     if (ser[t].transitions) trans_threads++;
+    if (ser[t].fec_lbrr) lbrr_threads++;
+    if (ser[t].fec_lbrr_multi) lbrr_multi_threads++;
   }
   rep.count((uint64_t)calls);
   VP_REQUIRE(left_inside == 0, "c14:harness-gauge", "gauge reads %d after all threads were joined", left_inside);
@@ -899,6 +914,8 @@ int vp_case(Choice& c, Report& rep) {
   if (coded) rep.label("coded-ok");
   if (plc) rep.label("op:loss-concealment");
   if (fec) rep.label("op:fec");
+  if (lbrr_threads >= 2) rep.label("fec-with-lbrr-in-2+threads");
+  if (lbrr_multi_threads >= 2) rep.label("fec-with-multiframe-lbrr-in-2+threads");
   if (trans_threads >= 1) rep.label("mode-transition");
   if (trans_threads >= 2) rep.label("mode-transition-in-2+threads");
   rep.note("max concurrency %d, %d library calls, %d coded frames, %d objects, threads with a mode transition %d", maxconc, calls, coded, created, trans_threads);
